@@ -263,7 +263,7 @@ Definition start_checks (s : sim) : bool :=
   && match rep s with Some _ => true | None => false end
   && match rs s with RNotInit => false | _ => true end
   && match ps s with PInit | PStarted => true | _ => false end
-  && (clock s <? end_time s).
+  && (clock s <=? end_time s).
 
 Definition do_start (fuel : nat) (p : program) (s : sim) (b : tmv) (i : bool) : sim * cres :=
   if start_checks s then
@@ -287,7 +287,7 @@ Definition step_checks (s : sim) : bool :=
   negb (running s)
   && match rs s with RNotInit => false | _ => true end
   && match ps s with PInit | PStarted => true | _ => false end
-  && (clock s <? end_time s).
+  && (clock s <=? end_time s).
 
 (* _step_impl on the first event e (rest r): TIME_CHANGED always; a failing
    handler is caught by step() itself *)
